@@ -62,7 +62,12 @@ class Ed25519Key(PKey):
             pkformat, data = self._read_private_key("OPENSSH", file_obj)
 
         if filename or file_obj:
-            signing_key = self._parse_signing_key_data(data, password)
+            try:
+                signing_key = self._parse_signing_key_data(data, password)
+            except (ValueError, KeyError) as e:
+                # names that are not text, unusable KDF parameters or cipher,
+                # wrong-sized key material
+                raise SSHException("Invalid key: {}".format(e))
 
         if signing_key is None and verifying_key is None:
             raise ValueError("need a key")
@@ -152,12 +157,13 @@ class Ed25519Key(PKey):
             # key...
             signing_key = nacl.signing.SigningKey(key_data[:32])
             # Verify that all the public keys are the same...
-            assert (
+            if not (
                 signing_key.verify_key.encode()
                 == public
                 == public_keys[i]
                 == key_data[32:]
-            )
+            ):
+                raise SSHException("Invalid key")
             signing_keys.append(signing_key)
             # Comment, ignore.
             message.get_binary()
